@@ -32,11 +32,18 @@ type GenOpts struct {
 	// probability that a few small pods of the batch constrain ONE custom node label key with required node affinity
 	// (In / NotIn / Exists / DoesNotExist, or a node selector) while nodes and NodePools may or may not define that label
 	LabelInterplay float64
-	Existing       float64 // probability scale for existing nodes
-	Reserved       bool    // generate reserved offerings and enable the feature gate
-	Limits         float64 // probability that a pool has limits
-	MaxPods        int
-	Weights        bool // distinct pool weights
+	// probability that the cluster has default topology spread constraints (--scheduler-config) and that the pods of one app
+	// are the replicas of a ReplicaSet behind one or two Services, WITHOUT constraints of their own (a few replicas carry an
+	// extra label that a second Service selects; Services / the ReplicaSet may be missing in some namespaces)
+	DefaultSpread float64
+	// probability that one List call of the pass fails once (Scenario.ListFaults): mostly the Namespace list that resolves the
+	// namespaceSelector of a (running or pending) pod's required anti-affinity term, sometimes a Pod or NodePool list
+	ListFaults float64
+	Existing   float64 // probability scale for existing nodes
+	Reserved   bool    // generate reserved offerings and enable the feature gate
+	Limits     float64 // probability that a pool has limits
+	MaxPods    int
+	Weights    bool // distinct pool weights
 }
 
 var Zones = []string{"z1", "z2", "z3"}
@@ -489,6 +496,12 @@ func GenScenario(r *rand.Rand, o GenOpts) *Scenario {
 	if o.Volumes > 0 && r.Float64() < o.Volumes {
 		DecorateVolumes(r, s)
 	}
+	if o.DefaultSpread > 0 && r.Float64() < o.DefaultSpread {
+		DecorateDefaultSpread(r, s)
+	}
+	if o.ListFaults > 0 && r.Float64() < o.ListFaults {
+		DecorateListFault(r, s)
+	}
 	return s
 }
 
@@ -784,6 +797,158 @@ func DecorateVolumes(r *rand.Rand, s *Scenario) {
 			p.Volumes = append(p.Volumes, vol)
 		}
 	})
+}
+
+// DecorateDefaultSpread configures cluster-level default topology spread constraints (one on zone, sometimes a second on
+// hostname or capacity type; mostly DoNotSchedule) and turns the pods of the first pending pod's app - pending and running,
+// at least three pending - into the replicas of ReplicaSet rs-<app> behind Service svc-<app> (selector app=<app>): they lose
+// their own spread constraints, so the defaults apply with the selector deduced per pod.  One or two replicas carry the
+// extra label track=canary, which a second Service (selector app=<app>,track=canary) selects: their deduced selector differs
+// from their siblings' although the controller is the same.  In every namespace the app's pods live in, the Services and the
+// ReplicaSet exist with high probability only; pods of other apps sometimes lose their constraints too (no Service selects
+// them, so they stay unconstrained unless they have a controller).
+func DecorateDefaultSpread(r *rand.Rand, s *Scenario) {
+	if len(s.Pods) == 0 {
+		return
+	}
+	unshare(s)
+	zone, host, ct := "topology.kubernetes.io/zone", "kubernetes.io/hostname", "karpenter.sh/capacity-type"
+	s.DefaultSpreads = []Spread{{TopologyKey: zone, MaxSkew: int32(1 + r.IntN(2)), DoNotSchedule: r.Float64() < 0.85}}
+	if r.Float64() < 0.15 && s.DefaultSpreads[0].DoNotSchedule {
+		md := int32(2 + r.IntN(2))
+		s.DefaultSpreads[0].MinDomains = &md
+	}
+	if r.Float64() < 0.3 {
+		s.DefaultSpreads = append(s.DefaultSpreads, Spread{TopologyKey: pick(r, []string{host, ct}), MaxSkew: int32(1 + r.IntN(3)), DoNotSchedule: r.Float64() < 0.5})
+	}
+	app := s.Pods[0].Labels["app"]
+	pending := 0
+	for i := range s.Pods {
+		if s.Pods[i].Labels["app"] == app {
+			pending++
+		}
+	}
+	for i := 0; pending < 3+r.IntN(3); i++ {
+		c := ClonePod(s.Pods[0])
+		c.Name = fmt.Sprintf("web-%d", i)
+		s.Pods = append(s.Pods, c)
+		pending++
+	}
+	small := r.Float64() < 0.6
+	nsUsed := []string{}
+	seen := map[string]bool{}
+	eachPod(s, func(p *Pod, node *Node) {
+		if p.Daemon {
+			return
+		}
+		if p.Labels["app"] != app {
+			if r.Float64() < 0.3 {
+				p.Spreads = nil
+			}
+			return
+		}
+		p.Spreads = nil
+		p.Owner = "rs-" + app
+		if node == nil && small {
+			// small replicas: several fit one node, so only the constraint spreads them
+			p.CPU = int64(100 * (1 + r.IntN(4)))
+			p.Mem = int64(64 * (1 + r.IntN(4)))
+			p.HostPorts = nil
+		}
+		if !seen[p.NS()] {
+			seen[p.NS()] = true
+			nsUsed = append(nsUsed, p.NS())
+		}
+	})
+	// the canaries: one or two replicas, pending ones first
+	canaries := 1 + r.IntN(2)
+	perm := r.Perm(len(s.Pods))
+	for _, i := range perm {
+		if canaries > 0 && s.Pods[i].Labels["app"] == app {
+			s.Pods[i].Labels["track"] = "canary"
+			canaries--
+		}
+	}
+	if r.Float64() < 0.3 {
+		eachPod(s, func(p *Pod, node *Node) {
+			if node != nil && p.Labels["app"] == app && !p.Daemon && r.Float64() < 0.3 {
+				p.Labels["track"] = "canary"
+			}
+		})
+	}
+	for _, ns := range nsUsed {
+		nsField := ns
+		if ns == "default" {
+			nsField = ""
+		}
+		if r.Float64() < 0.9 {
+			s.Services = append(s.Services, Service{Name: "svc-" + app, Namespace: nsField, Selector: map[string]string{"app": app}})
+		}
+		if r.Float64() < 0.8 {
+			s.Services = append(s.Services, Service{Name: "svc-" + app + "-canary", Namespace: nsField, Selector: map[string]string{"app": app, "track": "canary"}})
+		}
+		if r.Float64() < 0.1 {
+			// a Service without selector (selects nothing) and one with an empty selector (selects every pod, contributes nothing)
+			s.Services = append(s.Services, Service{Name: "svc-headless", Namespace: nsField}, Service{Name: "svc-all", Namespace: nsField, Selector: map[string]string{}})
+		}
+		if r.Float64() < 0.9 {
+			rs := ReplicaSet{Name: "rs-" + app, Namespace: nsField, Selector: LabelSel{MatchLabels: map[string]string{"app": app}}}
+			if r.Float64() < 0.2 {
+				rs.Selector = LabelSel{MatchExprs: []KExpr{{Key: "app", Op: "In", Values: []string{app}}}}
+			}
+			s.ReplicaSets = append(s.ReplicaSets, rs)
+		}
+	}
+}
+
+// DecorateListFault makes one List call of the pass fail once.  Mostly the Namespace list behind a namespaceSelector: when no
+// RUNNING pod carries a required anti-affinity term with a namespace selector, one of them (if any) usually gets such a term
+// against the first pending pod's app (hostname or zone; empty selector = all namespaces, or the env label), and the fault
+// strikes one of the lists that resolve the running pods' terms - or a later one (pending pods' terms).  Otherwise a Pod or
+// NodePool list.
+func DecorateListFault(r *rand.Rand, s *Scenario) {
+	unshare(s)
+	inverse := func() int {
+		n := 0
+		eachPod(s, func(p *Pod, node *Node) {
+			if node == nil {
+				return
+			}
+			for _, a := range p.Affinity {
+				if a.Anti && a.Required && a.NamespaceSelector != nil {
+					n++
+				}
+			}
+		})
+		return n
+	}
+	if r.Float64() < 0.75 {
+		if inverse() == 0 && len(s.Pods) > 0 && r.Float64() < 0.85 {
+			var running []*Pod
+			eachPod(s, func(p *Pod, node *Node) {
+				if node != nil && !p.Daemon && !node.Deleting {
+					running = append(running, p)
+				}
+			})
+			if len(running) > 0 {
+				g := pick(r, running)
+				sel := &LabelSel{}
+				if len(s.Namespaces) > 0 && r.Float64() < 0.4 {
+					sel = &LabelSel{MatchExprs: []KExpr{{Key: "env", Op: "In", Values: []string{"prod", "dev"}}}}
+				}
+				g.Affinity = append(g.Affinity, PodAffinity{TopologyKey: pick(r, []string{"kubernetes.io/hostname", "kubernetes.io/hostname", "topology.kubernetes.io/zone"}),
+					MatchLabels: map[string]string{"app": s.Pods[0].Labels["app"]}, Anti: true, Required: true, NamespaceSelector: sel})
+			}
+		}
+		n := inverse()
+		nth := 1 + r.IntN(n+1)
+		if r.Float64() < 0.15 {
+			nth += r.IntN(4)
+		}
+		s.ListFaults = []ListFault{{Kind: "Namespace", Nth: nth}}
+		return
+	}
+	s.ListFaults = []ListFault{{Kind: pick(r, []string{"Pod", "Pod", "NodePool"}), Nth: 1 + r.IntN(4)}}
 }
 
 var customKeys = []string{"team", "tier"}
